@@ -38,13 +38,28 @@ def run_prop(ctx: core.Ctx) -> None:
     ctx.rule = RULES[ctx.prop]
     core.sany('ScriptMC')
     total = 0
+    pool = []
     for layer in (ql if quick else tl):
         recs = sc.emit_layer(ctx, layer)
         total += len(recs)
+        if layer.startswith(('pair', 'shape', 'bool', 'term')):
+            pool += [r for r in recs if r['reject'] == 'none'][:: max(1, len(recs) // 400)]
         sc.replay(ctx, recs, checks=checks, namemaps=(qn if quick else tn), what=layer, layouts=layouts)
     sim = sc.simulate_layer(ctx, 'sim', qs if quick else ts_)
     total += len(sim)
     sc.replay(ctx, sim, checks=checks, namemaps=(qn if quick else tn)[:2], what='sim', layouts=layouts)
+    # long scripts: 4-10 statements over up to 14 shared names, composed from the statements generated above and judged
+    # by the specification itself (ScriptJudge.tla: semantics + theorems evaluated on every composed program)
+    progs = sc.compose_long(pool, ctx.seed, 150 if quick else 4000)
+    seen_p, uniq = set(), []
+    for pr in progs:
+        k_ = __import__('json').dumps(pr, sort_keys=True)
+        if k_ not in seen_p:
+            seen_p.add(k_)
+            uniq.append(pr)
+    long_ = sc.judge_programs(ctx, uniq, 'long')
+    total += len(long_)
+    sc.replay(ctx, long_, checks=checks, namemaps=(qn if quick else tn)[:2], what='composed-long', layouts=layouts)
     ctx.exhaustive = False
     ctx.extra['programs'] = total
     ctx.extra['disagreements_checked'] = sum(ctx._violation_keys.values()) + sum(ctx.known_seen.values())
